@@ -73,6 +73,9 @@ class Builder:
         name = f"m{idx}"
         m = {"k": "module", "name": name, "uses": [], "default_access": ch.weighted([(3, None), (2, "private"), (1, "public")]),
              "access_pos": "early", "decls": [], "procs": [], "public_names": [], "private_names": [], "doc": None}
+        if m["default_access"] and "late_default_access" not in self.excl and ch.bool(1, 3):
+            m["access_pos"] = "late"        # the bare PRIVATE / PUBLIC statement follows the declarations
+            self.feats.add("default-access:late")
         acc = lambda: ch.weighted([(3, None), (1, "public"), (1, "private")])
         for _ in range(ch.count(0, 2)):
             t = self.fresh("t")
